@@ -189,7 +189,9 @@ namespace rkcommon {
     {
       const size_t size = count * sizeof(T);
 
-      if (cursor + size > buffer->size()) {
+      // NOTE: neither the product above nor 'cursor + size' may wrap around
+      if (count > buffer->size() / sizeof(T) || cursor > buffer->size()
+          || size > buffer->size() - cursor) {
         throw std::runtime_error("Attempt to read past end of BufferReader!");
       }
 
